@@ -450,7 +450,8 @@ commentLineLoop:
 				s.SkipOptionalByte(10)
 				break
 			} else if b == '\f' { // FF ends a comment, too
-				break
+				// what follows is on the same line: not a continuation line
+				break commentLineLoop
 			}
 			buf.WriteByte(b)
 		}
